@@ -95,6 +95,9 @@ def run(tier, seed):
             sched = rng.choice([[1], [3], [9], [1, "interrupted", 2], [5, 5, "interrupted", 1]])
             ser_cmds.append({"op": "so_ser", "id": len(ser_cmds), "schema": {"nodes": G}, "pres": pres, "sink": sched, "repeat_last": rng.random() < 0.7})
             ser_meta.append((t, G, v))
+            # the same schema reached through a history: another graph's fingerprint asked first, then an edit, then freeze
+            ser_cmds.append({"op": "so_ser", "id": len(ser_cmds), "schema": {"nodes": G, "via_edit": True}, "pres": pres})
+            ser_meta.append((t, G, v))
         # a presentation that does not fit: must fail, nothing to decode
         ser_cmds.append({"op": "so_ser", "id": len(ser_cmds), "schema": {"nodes": G}, "pres": {"p": "tuple", "es": [{"p": "fail"}]}})
         ser_meta.append((t, G, None))
